@@ -393,19 +393,20 @@ func ruleC08TxComplete(c *Ctx) {
 	p := c.P
 	onCommit := p.ExtMethod(bboltPath, "Tx", "OnCommit")
 	mc := p.Named("boltz", "MutateContext")
-	for _, pair := range []struct{ m, bolt string }{{"Update", "Update"}, {"Batch", "Batch"}} {
-		outer := p.SSAFunc(p.Method("boltz", "DbImpl", pair.m))
-		boltF := p.ExtMethod(bboltPath, "DB", pair.bolt)
-		var inner *ssa.Function
-		for _, call := range callsIn(outer) {
-			if isCallTo(call, boltF) {
-				inner = anonFromArg(call.Common().Args[len(call.Common().Args)-1])
-			}
+	seen := map[string]bool{}
+	for _, site := range txSites(c) {
+		if (!site.Kinds["Update"] && !site.Kinds["Batch"]) || site.Forwarder {
+			continue
 		}
+		outer := site.Outer
 		name := FnName(outer)
-		if inner == nil {
+		if len(site.Body) != 1 {
 			c.Undecided("C08.TXCOMPLETE", name, p.Pos(outer.Pos()), "bolt closure not found")
 			continue
+		}
+		inner := site.Body[0]
+		for k := range site.Kinds {
+			seen[k] = true
 		}
 		c.Analysed(FnName(inner))
 		fi := ComputeFacts(inner)
@@ -445,6 +446,9 @@ func ruleC08TxComplete(c *Ctx) {
 			}
 		}
 		c.Check(ok, "C08.TXCOMPLETE", name, p.Pos(outer.Pos()), "tx-complete listeners are registered with tx.OnCommit on every successful path (skipped only when there are none)", why)
+	}
+	for _, k := range []string{"Update", "Batch"} {
+		c.Check(seen[k], "C08.TXCOMPLETE", "boltz: bbolt "+k+" transactions", "-", "the "+k+" transaction body was found and analysed", "no "+k+" transaction body found: tx-complete listeners cannot be shown to run for it")
 	}
 	c.Floor("C08.TXCOMPLETE", 2)
 }
@@ -990,24 +994,87 @@ func ruleC17Lock(c *Ctx) {
 	}
 	dbImpl := p.Named("boltz", "DbImpl")
 	n := 0
-	for i := 0; i < dbImpl.NumMethods(); i++ {
-		fn := p.SSA.FuncValue(dbImpl.Method(i))
-		if fn == nil || fn.Blocks == nil {
-			continue
+	ff := p.FuncFlow()
+	isEntry := map[*types.Func]bool{}
+	for _, e := range txEntries {
+		isEntry[e] = true
+	}
+	// a use of the loaded handle that enters bbolt: receiver of an entry method, or an argument of a call
+	// through a function value that stands for one ((*bbolt.DB).Update handed to a helper)
+	entersBolt := func(load ssa.Value) (bool, string) {
+		for _, r := range *load.Referrers() {
+			call, ok := r.(ssa.CallInstruction)
+			if !ok || call.Common().IsInvoke() {
+				continue
+			}
+			cc := call.Common()
+			if cal, _ := calleeOf(cc); cal != nil && isEntry[cal] && len(cc.Args) > 0 && cc.Args[0] == load {
+				return true, cal.Name()
+			}
+			if cc.StaticCallee() == nil {
+				for _, t := range ff.Resolve(cc.Value, 0) {
+					if m := methodOf(t); m != nil && isEntry[m] {
+						return true, m.Name()
+					}
+				}
+			}
 		}
-		for _, call := range callsIn(fn) {
-			if !isCallTo(call, txEntries...) {
-				continue
+		return false, ""
+	}
+	// where a closure is invoked (calls of values that may denote it)
+	invocations := func(cl *ssa.Function) []ssa.CallInstruction {
+		var out []ssa.CallInstruction
+		for _, fn := range ff.funcs {
+			for _, call := range callsIn(fn) {
+				cc := call.Common()
+				if cc.IsInvoke() || cc.StaticCallee() != nil {
+					continue
+				}
+				for _, t := range ff.Resolve(cc.Value, 0) {
+					if t == cl {
+						out = append(out, call)
+					}
+				}
 			}
-			if f, base := loadedField(call.Common().Args[0]); !sameVar(f, dbFld) || !isReceiver(fn, base) {
-				continue
+		}
+		return out
+	}
+	for _, fn := range c.prodFuncs("boltz") {
+		for _, b := range fn.Blocks {
+			for _, in := range b.Instrs {
+				ld, ok := in.(*ssa.UnOp)
+				if !ok || ld.Op != token.MUL {
+					continue
+				}
+				f, base := loadedField(ld)
+				if !sameVar(f, dbFld) {
+					continue
+				}
+				enters, how := entersBolt(ld)
+				if !enters {
+					continue
+				}
+				n++
+				c.Analysed(FnName(fn))
+				held := false
+				switch {
+				case fn.Parent() == nil:
+					held = isReceiver(fn, base) && lockHeldAt(p, fn, ld, "RLock", "RUnlock")
+				default:
+					// inside a closure: the lock must be held wherever the closure is invoked
+					inv := invocations(fn)
+					held = len(inv) > 0
+					for _, call := range inv {
+						if !lockHeldAt(p, call.Parent(), call, "RLock", "RUnlock") {
+							held = false
+						}
+					}
+				}
+				c.Check(held, "C17.LOCK", FnName(fn)+": bbolt "+how, p.Pos(ld.Pos()), "the database handle is read and the transaction entered with reloadLock read-held (RLock before, deferred RUnlock)", "a bolt transaction is entered (or the handle read for it) without holding the reload read-lock: a concurrent restore can swap the database file underneath it")
 			}
-			n++
-			c.Analysed(FnName(fn))
-			cal, _ := calleeOf(call.Common())
-			c.Check(lockHeldAt(p, fn, call, "RLock", "RUnlock"), "C17.LOCK", FnName(fn)+": bbolt "+cal.Name(), p.Pos(call.Pos()), "entered with reloadLock read-held (RLock before, deferred RUnlock)", "a bolt transaction is entered without holding the reload read-lock: a concurrent restore can swap the database file underneath it")
 		}
 	}
+	_ = dbImpl
 	c.Floor("C17.LOCK", 5)
 	// self.db is assigned only in Open
 	for i := 0; i < dbImpl.NumMethods(); i++ {
